@@ -1,6 +1,6 @@
 (* C02 - Infeasible/unbounded verdicts are never wrong; rays and Farkas proofs are valid. *)
 From Coq Require Import QArith Qabs List Bool.
-From SV Require Import Vec LP Cert Cert_Proofs DriverModel Driver_Proofs.
+From SV Require Import Vec LP Cert Cert_Proofs DriverModel Driver_Proofs Driver_Honest.
 Import ListNotations.
 Local Open Scope Q_scope.
 
@@ -95,6 +95,16 @@ Definition ex_inf : lp :=
      rows := [ {| r_lhs := Some 3; r_coef := [1]; r_rhs := None |} ] |}.
 Example C02_ex_farkas : check_farkas ex_inf [1] = true.
 Proof. vm_compute. reflexivity. Qed.
+(* A verdict INFEASIBLE / UNBOUNDED the driver ends with is the verdict of its LAST pass: the inner solve's status (after
+   cycling: the status of the feasibility test) or the simplifier's verdict; for every oracle, setting, start state, fuel. *)
+Theorem C02_verdict_from_last_pass : forall P orc oscaled fuel s0 s' t,
+  optimize P orc oscaled fuel s0 = Done s' -> DriverModel.status s' = t -> (t = DriverModel.INFEASIBLE \/ t = DriverModel.UNBOUNDED) ->
+  exists f, frame s' = S f /\
+    (o_status (orc f) = t \/ (o_status (orc f) = DriverModel.ABORT_CYCLING /\ o_cycstatus (orc f) = t) \/
+     (p_simp P = true /\ (o_simp (orc f) = S_INFEASIBLE /\ t = DriverModel.INFEASIBLE \/ o_simp (orc f) = S_UNBOUNDED /\ t = DriverModel.UNBOUNDED))).
+Proof. exact verdict_from_last_pass. Qed.
+Print Assumptions C02_verdict_from_last_pass.
+
 Definition ex_unb : lp :=
   {| maximize := true; offset := 0;
      cols := [ {| c_obj := 1; c_lo := Some 0; c_up := None |}; {| c_obj := 0; c_lo := None; c_up := Some 2 |} ];
